@@ -181,7 +181,7 @@ def cases(seed, tier):
     if tier == "quick":
         n_tri, n_poly, n_tet, sizes = 90, 72, 45, [2, 3, 4, 5]
     else:
-        n_tri, n_poly, n_tet, sizes = 3600, 2900, 1900, [3, 4, 6, 8, 10, 12]
+        n_tri, n_poly, n_tet, sizes = 2700, 2200, 1400, [3, 4, 6, 8, 10, 12]
     vrows = ["list", "tuple", "nprow", "vec"]
     irows = ["list", "tuple", "npint"]
     k = 0
